@@ -34,7 +34,7 @@ OWN = ["add_tag", "itemize", "get_tag_name"]
 PRIVATE = ["_tag_counter", "_tag_names"]
 DUNDER = ["__len__", "__dict__", "__class__", "__init__", "__doc__", "__module__", "__getattr__", "__name__", "__repr__",
           "__eq__", "__hash__", "__str__", "__setattr__", "__weakref__", "__new__", "__slots__", "__bool__", "__file__",
-          "__spec__", "__builtins__", "__loader__", "__sizeof__", "__annotations__", "__package__", "__path__", "__dir__",
+          "__warningregistry__", "__spec__", "__builtins__", "__loader__", "__sizeof__", "__annotations__", "__package__", "__path__", "__dir__",
           "__getattribute__", "__reduce__", "__init_subclass__", "__subclasshook__", "__format__"]
 MODGLOBALS = ["TagLibrary", "itemize", "DuplicateTagError", "TagNotFoundError", "_module_library", "add_tag",
               "get_tag_name", "__name__", "__getattr__"]
@@ -43,7 +43,7 @@ ARBITRARY = ["", " ", "two words", "9lives", "naïve", "a.b", "SHEEP\n", "None",
              # pairs of DIFFERENT strings with the same NFKC form (micro sign / Greek mu, Angstrom sign / A-ring, fi ligature)
              "\u00b5g", "\u03bcg", "\u212b", "\u00c5", "\ufb01sh", "fish", "x\u00b2", "x2",
              # names that merely LOOK like the library's own bookkeeping entries / like private or dunder names
-             "_tag_wolf", "_tag_", "_tags", "_hidden", "__wolf", "_", "__", "tag_names", "_tag_counter2",
+             "class", "big prey", "import", "_tag_wolf", "_tag_", "_tags", "_hidden", "__wolf", "_", "__", "tag_names", "_tag_counter2",
              # text that means something to str.format / %-formatting / templates (error messages quote the name)
              "{x}", "{}", "{0}", "a{b", "}{", "{{a}}", "{0!r:>10}", "%s", "%(x)s", "100%", "%d%%", "${HOME}", "\\", "'q'", "tab\there"]
 PLAIN = ["SHEEP", "WOLF", "GRASS", "PREY", "A", "B", "C", "tag_1", "x"]
